@@ -79,3 +79,64 @@ Proof.
   { unfold owns in Ho2'. eapply Permutation_trans; [exact Ho2'|]. apply Permutation_app_swap_app. }
   split; [exact Hh1|]. split; [exact Hh2|]. split; [congruence|]. auto 10.
 Qed.
+
+(** * zip add *)
+(** What [iter_add] computes once its node has been granted, read back from its specification. *)
+Lemma iter_add_parts s done x d added rest a F v id a1 :
+  lrep s (done ++ (x, d) :: added ++ rest) -> lown a s (done ++ (x, d) :: added ++ rest) F ->
+  alloc (l_mem s) NODE_BYTES a = (Some id, a1) ->
+  exists h nn, link_after (hset (l_heap s) id (fresh_node v)) x id = Ok h /\ load h id = Ok nn /\
+    let s' := upd s (l_size s + 1) (l_head s) (if n_next nn =? 0 then id else l_tail s) h in
+    lrep s' (done ++ (x, d) :: (id, v) :: added ++ rest) /\ lown a1 s' (done ++ (x, d) :: (id, v) :: added ++ rest) F /\
+    same_hdr s s'.
+Proof.
+  intros R Ho Ea.
+  pose (it := {| it_index := lenN (done ++ (x, d) :: added); it_last := x; it_next := first_id rest 0 |}).
+  assert (Hp : it_pos it (done ++ (x, d) :: added) rest) by (constructor; reflexivity).
+  pose proof (iter_add_spec s it done x d added rest a F v R Ho Hp eq_refl) as S. rewrite Ea in S.
+  destruct S as (s' & it' & E & R' & Ho' & _ & _ & Hh & _).
+  unfold iter_add in E. rewrite Ea in E. cbn [it_last it] in E.
+  destruct (link_after (hset (l_heap s) id (fresh_node v)) x id) as [h|] eqn:EL; [|discriminate]. cbn [bind] in E.
+  destruct (load h id) as [nn|] eqn:EN; [|discriminate]. cbn [bind] in E.
+  inversion E; subst. exists h, nn. cbv zeta. auto.
+Qed.
+
+(** zip add after a yield of the pair at nodes [x1], [x2] ([added1], [added2]: what was already added through the
+    iterator since that yield): each list receives its element in a fresh node of its own allocator family directly
+    behind the yielded node, the index steps over the new pair while the traversal position (next pointers) and the
+    yielded pair stay; if either node is refused nothing at all has changed - lists, iterator, live blocks. *)
+Theorem zip_add_spec s1 s2 z done1 x1 d1 added1 rest1 done2 x2 d2 added2 rest2 a F e1 e2 :
+  lrep s1 (done1 ++ (x1, d1) :: added1 ++ rest1) -> lrep s2 (done2 ++ (x2, d2) :: added2 ++ rest2) -> lok a ->
+  Permutation (live a) (blocks s1 (done1 ++ (x1, d1) :: added1 ++ rest1) ++ blocks s2 (done2 ++ (x2, d2) :: added2 ++ rest2) ++ F) ->
+  z1_last z = x1 -> z2_last z = x2 ->
+  exists st s1' s2' z' a', zip_add s1 s2 z e1 e2 a = Ok (st, s1', s2', z', a') /\
+    ((st = CC_OK /\ exists id1 id2,
+        lrep s1' (done1 ++ (x1, d1) :: (id1, e1) :: added1 ++ rest1) /\
+        lrep s2' (done2 ++ (x2, d2) :: (id2, e2) :: added2 ++ rest2) /\ lok a' /\
+        Permutation (live a') (blocks s1' (done1 ++ (x1, d1) :: (id1, e1) :: added1 ++ rest1) ++
+                               blocks s2' (done2 ++ (x2, d2) :: (id2, e2) :: added2 ++ rest2) ++ F) /\
+        same_hdr s1 s1' /\ same_hdr s2 s2' /\
+        z_index z' = z_index z + 1 /\ z1_last z' = x1 /\ z2_last z' = x2 /\ z1_next z' = z1_next z /\ z2_next z' = z2_next z) \/
+     (st = CC_ERR_ALLOC /\ s1' = s1 /\ s2' = s2 /\ z' = z /\ live a' = live a)).
+Proof.
+  intros R1 R2 Hk Hp H1 H2. unfold zip_add. rewrite H1, H2.
+  destruct (alloc (l_mem s1) NODE_BYTES a) as [[id1|] a1] eqn:E1.
+  2:{ destruct (alloc_none _ _ _ _ E1 Hk) as (Hl1 & _). do 5 eexists. split; [reflexivity|]. right. auto. }
+  destruct (alloc_some _ _ _ _ _ E1 Hk) as (Hid1 & Hl1 & Hk1 & _).
+  destruct (alloc (l_mem s2) NODE_BYTES a1) as [[id2|] a2] eqn:E2.
+  2:{ destruct (alloc_none _ _ _ _ E2 Hk1) as (Hl2 & _). rewrite Hl1 in Hl2.
+      destruct (release_head _ _ _ _ _ Hl2) as (a3 & -> & Hl3 & _). cbn [bind].
+      do 5 eexists. split; [reflexivity|]. right. auto. }
+  destruct (iter_add_parts s1 done1 x1 d1 added1 rest1 a _ e1 id1 a1 R1 (conj Hk Hp) E1) as (h1 & nn1 & L1 & N1 & R1' & [Hk1' Ho1] & Hh1).
+  assert (Ho2 : owns a1 s2 (done2 ++ (x2, d2) :: added2 ++ rest2)
+                  (blocks (upd s1 (l_size s1 + 1) (l_head s1) (if n_next nn1 =? 0 then id1 else l_tail s1) h1)
+                          (done1 ++ (x1, d1) :: (id1, e1) :: added1 ++ rest1) ++ F)).
+  { unfold owns in *. eapply Permutation_trans; [exact Ho1|]. apply Permutation_app_swap_app. }
+  destruct (iter_add_parts s2 done2 x2 d2 added2 rest2 a1 _ e2 id2 a2 R2 (conj Hk1 Ho2) E2) as (h2 & nn2 & L2 & N2 & R2' & [Hk2' Ho2'] & Hh2).
+  rewrite L1. cbn [bind]. rewrite L2. cbn [bind]. rewrite N1. cbn [bind]. rewrite N2. cbn [bind].
+  do 5 eexists. split; [reflexivity|]. left. split; [reflexivity|]. exists id1, id2.
+  cbn [z_index z1_last z2_last z1_next z2_next].
+  split; [exact R1'|]. split; [exact R2'|]. split; [exact Hk2'|]. split.
+  { unfold owns in Ho2'. eapply Permutation_trans; [exact Ho2'|]. apply Permutation_app_swap_app. }
+  split; [exact Hh1|]. split; [exact Hh2|]. auto 10.
+Qed.
